@@ -1,6 +1,8 @@
 """C07 - k-mer/index conversion is the base-4 bijection, consistent with revcomp."""
 
 import itertools
+
+import numpy as np
 import random
 
 from vf.oracles import sigdef as S
@@ -78,6 +80,13 @@ class Chk:
 				if d != ('ok', S.upper(s)):
 					ctx.violation('decode-wrong', f'index_to_kmer({exp}, {len(s)}) = {d} expected {S.upper(s)!r}', w)
 				ctx.count('roundtrips')
+				# composition with the library's own return value, whatever its type is
+				if r[0] == 'ok':
+					d2 = self._call(gk.index_to_kmer, r[1], len(s))
+					ctx.evals += 1
+					ctx.count('composed_roundtrips')
+					if d2 != ('ok', S.upper(s)):
+						ctx.violation('roundtrip', f'index_to_kmer(kmer_to_index({s!r}), {len(s)}) = {d2} (kmer_to_index returned {type(r[1]).__name__} {r[1]})', w)
 			ctx.count('valid_kmers')
 		else:
 			for name, res in (('kmer_to_index', r), ('kmer_to_index_rc', rr)):
@@ -142,6 +151,19 @@ class Chk:
 		if back != ('ok', i):
 			ctx.violation('roundtrip', f'kmer_to_index(index_to_kmer({i}, {k})) = {back}', w)
 		ctx.count('index_roundtrips')
+		# the same index as a NumPy integer (what a signature element is): same k-mer
+		for dtn in ('u8', 'i8', 'u4', 'u2', 'u1'):
+			info = np.iinfo(dtn)
+			if not (info.min <= i <= info.max) or 4 ** k - 1 > info.max and dtn not in ('u8', 'i8'):
+				continue
+			v = np.array([i], dtype=dtn)[0]
+			dn = self._call(gk.index_to_kmer, v, k)
+			ctx.evals += 1
+			ctx.count(f'index_type:np.{dtn}')
+			if i >= 2 ** 53:
+				ctx.count(f'index_type_above_2^53:np.{dtn}')
+			if dn != ('ok', exp):
+				ctx.violation('decode-wrong', f'index_to_kmer(np.{np.dtype(dtn).name}({i}), {k}) = {dn} expected {exp!r}', dict(w, index_type=dtn))
 
 
 def run_shard(sh, ctx):
@@ -227,7 +249,7 @@ def run_shard(sh, ctx):
 
 def finalize(merged, tier, seed, inconclusive):
 	c = merged['counters']
-	for n in ['valid_kmers', 'invalid_kmers_rejected_or_flagged', 'roundtrips', 'index_roundtrips', 'revcomp_calls', 'too_long_kmers', 'type:str', 'type:Seq', 'type:bytearray', 'invalid_text_kmers']:
+	for n in ['valid_kmers', 'invalid_kmers_rejected_or_flagged', 'roundtrips', 'index_roundtrips', 'revcomp_calls', 'too_long_kmers', 'type:str', 'type:Seq', 'type:bytearray', 'invalid_text_kmers', 'composed_roundtrips', 'index_type:np.u8', 'index_type_above_2^53:np.u8', 'index_type:np.u1']:
 		if c.get(n, 0) == 0:
 			inconclusive.append(f'class never observed: {n}')
 	merged['notes'].setdefault('sanitizer_stage', {})
